@@ -61,7 +61,7 @@ BODIES = [
 # bodies with bitwise operators, shifts, powers or float arithmetic on the inputs: the solver enumerates x and y over a small box instead of
 # carrying them symbolically through bit-vector / floating-point terms (which does not finish); they make no opaque calls
 ENUM = {1, 3, 4, 5, 13, 20, 21, 22}
-YMAX = 8 if any(i in ENUM for i in BATCH) else 1000
+YMAX = 4 if any(i in ENUM for i in BATCH) else 1000
 IDX = [i for i in BATCH if i < len(BODIES) and ((BODIES[i][2] is None) if REGION is None else (BODIES[i][2] == REGION))]
 NB = len(IDX)
 _dir = os.environ.get("VERIF_TWIN_DIR") or "/var/tmp"
@@ -137,7 +137,7 @@ def h_same(which: int, x: int, y: int, r0: int, r1: int, r2: int, r3: int, r4: i
     """
     pre: 0 <= which < NB
     pre: XLO <= x <= XHI and -YMAX <= y <= YMAX
-    pre: all(-RMAX <= r <= RMAX for r in (r0, r1, r2, r3, r4, r5))
+    pre: (-RMAX <= r0) & (r0 <= RMAX) & (-RMAX <= r1) & (r1 <= RMAX) & (-RMAX <= r2) & (r2 <= RMAX) & (-RMAX <= r3) & (r3 <= RMAX) & (-RMAX <= r4) & (r4 <= RMAX) & (-RMAX <= r5) & (r5 <= RMAX)
     post: _
     """
     global LAST_DETAIL
